@@ -120,10 +120,12 @@ func avoidOpenFindings(c *Case) {
 					c.Expr = normalize(c.Expr)
 					changed = true
 					if !s.detect(c, ctx) {
+						c.Excl = append(c.Excl, s.name+"~")
 						continue
 					}
 				}
 				dropCtx(c, ctx)
+				c.Excl = append(c.Excl, s.name+"@"+ctx)
 				changed = true
 			}
 		}
